@@ -390,6 +390,8 @@ pub struct OrderReq {
     pub valid_from_ts: Option<i64>,
     /// Receiver of the order's outputs (defaults to the owner).
     pub receiver: Option<Pubkey>,
+    /// Decrease: how pnl / collateral outputs are merged before the receive-token swap (None = program default).
+    pub decrease_swap: Option<gmsol_model::action::decrease_position::DecreasePositionSwapType>,
 }
 
 impl OrderReq {
@@ -409,6 +411,7 @@ impl OrderReq {
             final_output_token: None,
             valid_from_ts: None,
             receiver: None,
+            decrease_swap: None,
         }
     }
 }
@@ -434,7 +437,7 @@ impl World {
     pub fn order_params(&self, req: &OrderReq) -> CreateOrderParams {
         CreateOrderParams {
             kind: req.kind,
-            decrease_position_swap_type: None,
+            decrease_position_swap_type: req.decrease_swap,
             execution_lamports: EXECUTION_FEE,
             swap_path_length: req.swap_path.len() as u8,
             initial_collateral_delta_amount: req.initial_collateral_delta_amount,
